@@ -1,5 +1,6 @@
 import EncodingRs.Model.L1
 import EncodingRs.Lemmas.FamLaws
+import EncodingRs.Lemmas.Life
 /-!
 # C19 — `latin1_byte_compatible_up_to` is exact and does not disturb the decoder
 -/
@@ -227,11 +228,39 @@ theorem neutral_iso (s : Iso2022JpSt) (bytes : List Nat) :
     simp only [Option.isSome_none, Bool.false_eq_true, false_iff]
     intro he; cases he; exact h ⟨rfl, rfl, rfl, rfl, rfl⟩
 
-/-- calling it never changes what the decoder subsequently produces: the model
-function takes the decoder by value and returns only the answer -/
-theorem l1_pure (v : Gen.Variant) (d : Decoder (famOfVariant v)) (bytes : List Nat) :
-    ∃ (f : Decoder (famOfVariant v) → List Nat → Option Nat), f d bytes = Decoder.l1 v d bytes :=
-  ⟨Decoder.l1 v, rfl⟩
+/-! ### the remaining variants: `Some` exactly in the neutral state, for all 13 -/
+
+theorem neutral_gbk (s : GbSt) (bytes : List Nat) :
+    (l1Variant .gbk s bytes).isSome = true ↔ s = gbInit := neutral_gb s bytes
+
+theorem neutral_eucJp (s : EucJpSt) (bytes : List Nat) :
+    (l1Variant .eucJp s bytes).isSome = true ↔ s = EucJpSt.none := by
+  simp only [l1Variant]; cases s <;> simp
+
+theorem neutral_shiftJis (s : Option Nat) (bytes : List Nat) :
+    (l1Variant .shiftJis s bytes).isSome = true ↔ s = none := by
+  simp only [l1Variant]; cases s <;> simp
+
+theorem neutral_eucKr (s : Option Nat) (bytes : List Nat) :
+    (l1Variant .eucKr s bytes).isSome = true ↔ s = none := by
+  simp only [l1Variant]; cases s <;> simp
+
+/-- the stateless compatible encodings always answer -/
+theorem neutral_singleByte (t a b c : Nat) (s : Unit) (bytes : List Nat) :
+    (l1Variant (.singleByte t a b c) s bytes).isSome = true := rfl
+
+theorem neutral_userDefined (s : Unit) (bytes : List Nat) :
+    (l1Variant .userDefined s bytes).isSome = true := rfl
+
+/-- the never-compatible encodings never answer, whatever their state -/
+theorem neutral_replacement (s : Bool) (bytes : List Nat) :
+    (l1Variant .replacement s bytes).isSome = false := rfl
+
+theorem neutral_utf16Be (s : Utf16St) (bytes : List Nat) :
+    (l1Variant .utf16Be s bytes).isSome = false := rfl
+
+theorem neutral_utf16Le (s : Utf16St) (bytes : List Nat) :
+    (l1Variant .utf16Le s bytes).isSome = false := rfl
 
 /-! Non-vacuity -/
 example : singleByteL1 (Gen.singleByteTables.getD 19 #[]) [0x61, 0xE9, 0x62, 0x80, 0x63] = 3 := by decide +kernel
